@@ -432,4 +432,5 @@ def main():
                "distinct_nontrivial": nontrivial, "samples": descr[:1] + descr[-2:], "tree": cc.mpilot.__file__}, open(out, "w"), default=str)
 
 
-main()
+if __name__ == "__main__":
+    main()
